@@ -35,7 +35,10 @@
     f<i>  1 iff the rows of all OTHER networks (with their shard ids) are what they were before the op
   spec columns (looked at by the property oracles only):
     k<i>  the op code      sm<i> the multiset specification's state      so<i> its answer to a complete listing
-    pp<i> page size in force for L/LA/PL (`neg` for a negative size)      tk<i> kind of page token (e|t|b) for L/PL
+    pp<i> page size in force for L/LA/PL (`neg` for a negative size)
+    tk<i> kind of page token for L/PL: e empty, n the non-empty token an earlier item returned (`n <j>`), t another
+          well-formed token, b malformed
+    sc<i> for an L/PL request the specification accepts: the number of relationships matching its query
     spec  1 iff the model agreed with the specification at every step
     changed  1 iff the database differs from the one at the last MARK (or the initial one)
 -/
@@ -348,8 +351,17 @@ def stepItem (L : Line) (fail : Oracle) (nets : List Nat) (U : List (String × T
       | none => cols
     let cols := match op with
       | .list _ _ t | .pList _ _ t =>
-        cols.push ("tk" ++ i ++ "=" ++ (match t with | .empty => "e" | .at _ => "t" | .bad => "b"))
+        cols.push ("tk" ++ i ++ "=" ++
+          (match t with | .empty => "e" | .at _ => (if itr.2.isSome then "n" else "t") | .bad => "b"))
       | _ => cols
+    -- the number of relationships the specification says match a page request it accepts
+    let specCount : Option Nat := match op with
+      | .list q sz _ => (specListAll L.cfg nid q sz m0).map fun f => U.foldl (fun a u => a + f u.2) 0
+      | .pList q sz _ => if sz < 0 then none else some (U.foldl (fun a u => a + m0.list nid q u.2) 0)
+      | _ => none
+    let cols := match specCount with
+      | some c => cols.push ("sc" ++ i ++ "=" ++ toString c)
+      | none => cols
     -- the specification's answer to a complete listing
     let (cols, okL) := match op with
       | .listAll q sz =>
